@@ -108,6 +108,11 @@ def body(v_real, assume, prop, nogo, rng):
     finally:
         D.remove_cutout = real_rc
     cs = []
+    # the candidate grids cover the bounding rectangle of ALL property outlines (independent extent, real grid generator)
+    grids, _ = D.bi_rectangle_nested(max(xs), max(ys), bmin, bmx, bmy)
+    expected_inputs = [[(_det(x), _det(y)) for x, y in f] for sub in grids for f in sub]
+    first_stage = [[(_det(x), _det(y)) for x, y in c[0]] for c in calls if not c[3]]
+    cs.append(first_stage == expected_inputs)
     for inp, out, b, ri, kc, tol in calls:
         cs.append(tol == TOL)
         cs.append(stage_checks(inp, out, b, ri, kc))
@@ -220,6 +225,7 @@ CONFIGS = {
     'L_shape': dict(prop=[[(0.0, 0.0), (40.0, 0.0), (40.0, 20.0), (20.0, 20.0), (20.0, 40.0), (0.0, 40.0)]], nogo=[]),
     'rect_nogo': dict(prop=[[(0.0, 0.0), (48.0, 0.0), (48.0, 32.0), (0.0, 32.0)]], nogo=[[(16.0, 8.0), (32.0, 8.0), (32.0, 24.0), (16.0, 24.0)]]),
     'two_outlines_cw': dict(prop=[[(0.0, 0.0), (0.0, 30.0), (18.0, 30.0), (18.0, 0.0)], [(24.0, 5.0), (45.0, 5.0), (45.0, 36.0), (24.0, 36.0)]], nogo=[]),
+    'two_outlines_small_last': dict(prop=[[(0.0, 0.0), (45.0, 0.0), (45.0, 36.0), (0.0, 36.0)], [(50.0, 2.0), (58.0, 2.0), (58.0, 12.0), (50.0, 12.0)]], nogo=[]),
     'convex_offset': dict(prop=[[(5.0, 3.0), (38.0, 0.0), (46.0, 22.0), (25.0, 41.0), (2.0, 30.0)]], nogo=[[(20.0, 12.0), (28.0, 12.0), (28.0, 20.0)]]),
     'U_two_nogo': dict(prop=[[(0.0, 0.0), (50.0, 0.0), (50.0, 40.0), (35.0, 40.0), (35.0, 15.0), (15.0, 15.0), (15.0, 40.0), (0.0, 40.0)]],
                        nogo=[[(3.0, 3.0), (9.0, 3.0), (9.0, 9.0), (3.0, 9.0)], [(40.0, 20.0), (47.0, 20.0), (47.0, 30.0), (40.0, 30.0)]]),
@@ -232,7 +238,7 @@ def units(tier, seed):
     AS = ['polygons concrete; floats as reals for the spacing arithmetic; classification of concrete grid points natively in binary64',
           'lots admit three rows at the maximum spacing']
     us = []
-    names = list(CONFIGS) if tier == 'thorough' else ['L_shape', 'rect_nogo', 'two_outlines_cw', 'convex_offset']
+    names = list(CONFIGS) if tier == 'thorough' else ['L_shape', 'rect_nogo', 'two_outlines_cw', 'two_outlines_small_last', 'convex_offset']
     rng = (5.0, 10.0, 20.0) if tier == 'quick' else (3.0, 12.0, 25.0)
     for nm in names:
         c = CONFIGS[nm]
